@@ -275,41 +275,38 @@ def run(ctx):
              and (call_name(c) in ("check_xform", "validate") or "validate" in norm(c.func))]
     r4.check(not after, "xls2xform_convert:no validation after the write", "nothing is validated once the output file has been written", xc.loc(),
              why_fail=f"{[norm(c)[:50] for c in after]}")
-    # what is written and under which guard
-    wcalls = [c for c in walk_own(xc.node) if isinstance(c, ast.Call) and call_name(c) == "write"]
-    payloads = sorted(norm(c.args[0]) for c in wcalls if c.args)
-    r4.check(payloads == sorted([f"{resvar}.itemsets", f"{resvar}.xform"]), "xls2xform_convert:payloads",
-             "exactly the library result's xform and itemsets are written", xc.loc(), why_fail=f"payloads={payloads}")
-    from ..astutil import guard_texts
-    for c in wcalls:
-        gt = guard_texts(c, stop=xc.node)
-        if c.args and norm(c.args[0]).endswith(".itemsets"):
-            r4.check(gt == [f"{resvar}.itemsets is not None"], "xls2xform_convert:itemsets.guard",
-                     "itemsets.csv is written iff the result has itemsets", xc.loc(c), why_fail=f"guards={gt}")
-        else:
-            r4.check(gt == [], "xls2xform_convert:xform.guard", "the XForm is written unconditionally after success", xc.loc(c), why_fail=f"guards={gt}")
-    # itemsets beside the xform
-    from ..astutil import const_str, subst_locals
-    ipath = None
-    for w in walk_own(xc.node):
-        if isinstance(w, ast.With) and any(isinstance(c, ast.Call) and call_name(c) == "write" and c.args and norm(c.args[0]).endswith(".itemsets") for st in w.body for c in ast.walk(st)):
-            for item in w.items:
-                if isinstance(item.context_expr, ast.Call) and call_name(item.context_expr) == "open" and item.context_expr.args:
-                    ipath = subst_locals(item.context_expr.args[0], xc.node)
-    okp = False
-    if isinstance(ipath, ast.BinOp) and isinstance(ipath.op, ast.Div):
-        left, right = norm(ipath.left), ipath.right
-        okc, fname = const_str(ctx, xc.module, right)
-        if not okc and isinstance(right, ast.Name):
-            # an optional parameter whose default is the documented file name
-            a = xc.node.args
-            params = [*a.posonlyargs, *a.args]
-            dflt = dict(zip([p_.arg for p_ in params[len(params) - len(a.defaults):]], a.defaults))
-            dflt.update({p_.arg: d for p_, d in zip(a.kwonlyargs, a.kw_defaults) if d is not None})
-            if right.id in dflt:
-                okc, fname = const_str(ctx, xc.module, dflt[right.id])
-        okp = okc and fname == "itemsets.csv" and ".parent" in left and "xform_path" in left
-    r4.check(okp, "xls2xform_convert:itemsets.path", "itemsets.csv is placed beside the XForm output path", xc.loc())
+    # what is written, where, and when - by evaluation: the function is evaluated with a stand-in conversion result
+    # (with and without itemsets) and a recording `open`; the files written must be exactly the XForm at the output path
+    # and, iff the result has itemsets, itemsets.csv in the output path's directory (wherever the input file lives)
+    import pathlib as _pl
+    from .c12 import native as _native
+    for has_items, (inp, outp) in itertools.product((False, True), (("/in/dir/form.xlsx", "/out/dir/form.xml"), ("/same/form.xlsx", "/same/form.xml"), ("form.xlsx", "sub/out.xml"))):
+        written = {}
+
+        def h_open(i_, a_, k_, n_, written=written):
+            path_, mode_ = a_[0], k_.get("mode", a_[1] if len(a_) > 1 else "r")
+            return Obj(None, {"write": lambda i2, a2, k2, n2, path_=path_, mode_=mode_: written.setdefault((str(path_), mode_), []).append(a2[0])}, name="file")
+        res_ = Obj(None, {"xform": "XFORM-TEXT", "itemsets": ("CSV-TEXT" if has_items else None), "warnings": ["w1"]}, name="result")
+        itx = ctx.interp("C18.R4", hooks={"fnname:convert": lambda i_, a_, k_, n_, res_=res_: (k_["warnings"].append("w1") if isinstance(k_.get("warnings"), list) else None, res_)[1], "ext:pathlib.Path": lambda i_, a_, k_, n_: _pl.PurePosixPath(a_[0]),
+                                          # a validator called from this wrapper is outside its contract (the rule above reports it); stand-in: no findings
+                                          "fnname:check_xform": lambda i_, a_, k_, n_: []})
+        itx._modcache = dict(itx._modcache)
+        itx._modcache[("pyxform.xls2xform", "logger")] = Sym("LOGGER", truthy=True, attrs={m_: (lambda i_, a_, k_, n_: None) for m_ in ("info", "warning", "exception", "error", "debug")})
+        itx.reset([])
+        desc = f"itemsets={'yes' if has_items else 'no'} input={inp} output={outp}"
+        try:
+            out_ = itx.call_function(xc, [], {"xlsform_path": inp, "xform_path": outp}, {"open": _native(h_open)}, xc.node)
+        except Raised as e:
+            r4.fail(f"xls2xform_convert[{desc}]", f"evaluates (raises {e.exc_name}{e.exc_args})", xc.loc())
+            continue
+        want_files = {str(_pl.PurePosixPath(outp)): ["XFORM-TEXT"]}
+        if has_items:
+            want_files[str(_pl.PurePosixPath(outp).parent / "itemsets.csv")] = ["CSV-TEXT"]
+        got_files = {str(_pl.PurePosixPath(p_)): v_ for (p_, m_), v_ in written.items()}
+        modes_ok = all("w" in m_ for (_p, m_) in written)
+        r4.check(got_files == want_files and modes_ok and out_ == ["w1"], f"xls2xform_convert[{desc}]",
+                 "writes the XForm to the output path and, iff there are itemsets, itemsets.csv beside it; returns the conversion warnings", xc.loc(),
+                 why_fail=f"files written: {got_files!r} (modes {[m_ for _p, m_ in written]}), returned {out_!r}")
     # convert(): itemsets computed iff external choices are used; to_xml receives validate flag
     cv = ctx.func("pyxform.xls2xform:convert", "C18.R4")
     tox = [c for c in walk_own(cv.node) if isinstance(c, ast.Call) and call_name(c) == "to_xml"]
